@@ -641,6 +641,15 @@ class DataLinkConnection(TransmissionControlObject):
                 # only the first answer counts, a second one would stay
                 # in the queue and be taken for data by recv()
                 if len(self.recv_queue) == 0:
+                    if rcvd_pdu.name == "CC":
+                        # The connection is established now and not when
+                        # the application thread wakes up in connect(),
+                        # I PDUs may arrive with the very next exchange.
+                        self.peer = rcvd_pdu.ssap
+                        self.recv_buf = self.recv_win + 1  # CC included
+                        self.send_miu = rcvd_pdu.miu
+                        self.send_win = rcvd_pdu.rw
+                        self.state.ESTABLISHED = True
                     self.recv_queue.append(rcvd_pdu)
                     self.recv_ready.notify()
 
